@@ -474,3 +474,54 @@ def write_evidence(pid, tier, seed, t0, coverage, assumptions, violations):
     os.makedirs(os.path.join(ROOT, "evidence"), exist_ok=True)
     with open(os.path.join(ROOT, "evidence", pid + ".json"), "w") as f:
         json.dump(ev, f, indent=1)
+
+# ------------------------------------------------------------------ oracle helpers
+def model_bools(lines):
+    out = run_model(lines)
+    res = []
+    for l, o in zip(lines, out):
+        if o == "BOOL 1":
+            res.append(True)
+        elif o == "BOOL 0":
+            res.append(False)
+        else:
+            raise RuntimeError("model oracle failed on %r: %r" % (l, o))
+    return res
+
+def validated_witnesses(shapes, cap=10):
+    """shape tuples -> {shape_str: [doc_str,...]} of documents the reference semantics admits"""
+    cand, lines = [], []
+    seen = set()
+    for s in shapes:
+        t = sh_str(s)
+        if t in seen:
+            continue
+        seen.add(t)
+        for d in witnesses(s, cap):
+            ds = doc_str(d)
+            cand.append((t, ds))
+            lines.append("mem\t%s\t%s" % (ds, t))
+    oks = model_bools(lines)
+    res = {t: [] for t in seen}
+    for (t, ds), ok in zip(cand, oks):
+        if ok:
+            res[t].append(ds)
+    return res
+
+def doc_pool_small():
+    """exhaustive documents: nesting <= 2, containers <= 2 wide, keys a,b,c"""
+    return docs_depth(2, 2)
+
+BASE_DOCS = [None, 't', '1', 's', [], (), ['1'], ['1', '1'], ['1', 's'], [None], [None, '1'], [[]], [[], []],
+             [['1']], [['1'], []], [['1'], ['s']], [['1', 's'], ['1', 's']], ['1', []], [(), ()],
+             (('a', '1'),), (('a', 's'),), (('a', None),), (('a', '1'), ('b', 's')), (('b', 't'),),
+             (('a', []),), (('a', ['1']),), (('a', ['1', 's']),), (('a', (('b', '1'),)),), (('a', ()),),
+             [(('a', '1'),), (('a', '1'),)], [(('a', '1'),), (('b', 's'),)], [(('a', '1'), ('b', 's')), (('a', '1'),)],
+             [(('a', '1'),), ()], [(('a', None),), (('a', '1'),)], [(('a', '1'),), (('a', 's'),)],
+             [(('a', ['1']),), (('a', []),)], [(('a', (('c', '1'),)),), (('a', (('c', '1'), ('d', 's'))),)],
+             [['1', 's'], 't'], ['t', ['1', 's']], [None, None], ['1', None], [None, 's', 't'],
+             (('a', ['1', None]),), (('a', [None, None]),), [[None], ['1']], [[None, None]],
+             ['1', 's', 't'], ['1', 's', 't', None], [['1', 's', 't']], (('k', ['1', 's']), ('z', None)),
+             [(('a', '1'), ('b', 's'), ('c', 't')), (('b', 's'),)], [(('b', 's'),), (('a', '1'), ('b', 's'), ('c', 't'))],
+             [(), (), ()], [[], '1'], [(), '1'], [['1'], ['1', '1']], [['1', 's'], ['s', '1']],
+             [['1', 's'], ['1', 's', 't']], [[['1']]], [[[]]], (('a', (('a', (('a', '1'),)),)),)]
